@@ -1,14 +1,14 @@
-\* non-vacuity: a removal / suspension is refused for lack of quorum within the bounds; must violate Vac_NeverInsufficient
+\* intended design, thorough tier: every initial status mix, 4 mutations
 SPECIFICATION Spec
 CONSTANTS
   Sizes = {2, 3}
-  InitStatuses = {"Active", "Inactive"}
-  MaxInitIdle = 1
+  InitStatuses = {"Active", "Inactive", "Suspended"}
+  MaxInitIdle = 3
   ArgIds = {1, 2, 3, 9}
   NewIds = {1, 4}
   Tokens = {"S", "F", "P"}
   HugeChoices = {FALSE, TRUE}
-  MaxVer = 3
+  MaxVer = 5
   AuditCap = 5
   AuditDrop = 2
   AsImplemented_ErrorMutates = FALSE
@@ -18,5 +18,6 @@ CONSTANTS
   AsImplemented_DeadPermissions = FALSE
   AsImplemented_HugeSuspensionPanics = FALSE
   Variant_ThresholdIgnoresActive = FALSE
-INVARIANTS TypeOK Vac_NeverInsufficient
+INVARIANTS TypeOK ThresholdWithinActive HasThresholdIff FreshGroupValid ValidateClosure Structure NoPermissionUnlessActive NotActiveNotListed UnknownNotFound EveryPermissionGrantable MatrixRules QueriesConsistent AuditBounded AuditKeepsLatest NoPanic
+PROPERTIES ErrorsChangeNothing VersionCounts MembershipFixed Frames
 CHECK_DEADLOCK FALSE
